@@ -645,10 +645,10 @@ def _run_chunk(cmd, reqs, env):
     return results
 
 
-def run_parallel(binname, reqs, rel, workers, chunk, memlimit=True):
+def run_parallel(binname, reqs, rel, workers, chunk, memlimit=True, vlimit_kb=8000000):
     env = dict(ENV)
     env["MJVERIF_WATCHDOG_MS"] = str(WATCHDOG_MS)
-    cmd = ["bash", "-c", ("ulimit -v 8000000; " if memlimit else "") + "exec " + bin_path(binname, rel)]
+    cmd = ["bash", "-c", ("ulimit -v %d; " % vlimit_kb if memlimit else "") + "exec " + bin_path(binname, rel)]
     chunks = [reqs[i:i + chunk] for i in range(0, len(reqs), chunk)]
     with concurrent.futures.ThreadPoolExecutor(max_workers=workers) as ex:
         parts = list(ex.map(lambda c: _run_chunk(cmd, c, env), chunks))
@@ -797,6 +797,7 @@ def main():
         chk.finish()
     # ---- templates ----
     line_groups = []
+    lowmem_groups = []
     if chk.replay:
         rp = json.load(open(chk.replay))["replay"]
         one = [(rp["template"], rp.get("request_extra") or {})] if "template" in rp else []
@@ -816,8 +817,11 @@ def main():
                   ("pipelines", pipeline_templates(REPO, chk.rng, 1200000 if chk.thorough else 12000)),
                   ("mutated", mutated_fixtures(REPO, chk.rng, 400000 if chk.thorough else 4000)),
                   ("slices", slice_family(chk.thorough)), ("lexer", lexer_family(chk.thorough)), ("arith", arith_family()), ("oddvalues", odd_values_family(REPO)),
-                  ("multi", multi_template_family()), ("cyclic", cyclic_family(REPO)), ("widths", width_family()),
+                  ("multi", multi_template_family()), ("cyclic", cyclic_family(REPO)),
                   ("loopcontrols", loop_control_family()), ("escaped", escaped_objects_family())]
+        # nothing legitimate in this family needs gigabytes: a tight address-space limit turns what would be minutes of
+        # filling memory on a tree without the width bounds (14 shards in parallel) into an immediate allocation failure
+        lowmem_groups = [("widths", width_family())]
         line_groups = [("linesyntax", line_syntax_family())]
         labels = {t: l for l, t in nest}
     hist = collections.Counter()
@@ -843,7 +847,7 @@ def main():
         return r
 
     t_run = time.time()
-    for binname, gs, mk in (("prog", groups, prog_req), ("c01", line_groups, c01_req)):
+    for binname, gs, mk, vlimit in (("prog", groups, prog_req, 8000000), ("prog", lowmem_groups, prog_req, 2000000), ("c01", line_groups, c01_req, 8000000)):
       flat = entries(gs)
       # heavy requests (long templates) first so that the shards finish together
       order = sorted(range(len(flat)), key=lambda i: -(len(flat[i][1]) + sum(len(x) for x in flat[i][2].get("templates", {}).values())))
@@ -851,7 +855,7 @@ def main():
       for rel in (False, True):
         if not reqs:
             continue
-        res = run_parallel(binname, reqs, rel, workers=14, chunk=64)
+        res = run_parallel(binname, reqs, rel, workers=14, chunk=64, vlimit_kb=vlimit)
         total += len(res)
         # a request that did not answer within the watchdog while 14 shards (and whatever else) load the machine
         # gets a second chance alone with a 3 times longer watchdog before it counts as a hang (at most 2 per profile)
@@ -915,7 +919,7 @@ def main():
     chk.cov["evaluations"] = total
     chk.cov["distinct_nontrivial"] = len(distinct_ok)
     chk.cov["rule"] = "non-trivial = distinct template that loads and renders successfully (the rest end in an error value, which is also an allowed outcome); see explanation for the generators"
-    chk.cov["samples"] = [(lambda e: e if isinstance(e, str) else e[0])(g[1][len(g[1]) // 3])[:200] for g in groups + line_groups if g[1]]
+    chk.cov["samples"] = [(lambda e: e if isinstance(e, str) else e[0])(g[1][len(g[1]) // 3])[:200] for g in groups + lowmem_groups + line_groups if g[1]]
     chk.cov["distribution"] = dict(hist)
     chk.cov["parser_graph"] = {k: info[k] for k in ("functions", "edges", "guarded_edges", "max_rank", "max_recursion", "unguarded_cycles", "max_nesting", "loops", "uncharged_loops") if k in info}
     chk.cov["stack_meter"] = meter
